@@ -135,11 +135,11 @@ class Rendered:
         self.brackets = brackets
 
 
-def render(trees, rnd, style, permute, adversarial=True, pad=False, string_mode=None):
+def render(trees, rnd, style, permute, adversarial=True, pad=False, string_mode=None, requested=()):
     """abstract trees (pages of ONE case) -> [bytes], one token table, projections of json.loads of those bytes, ijson
     streams and the lexical facts the regex of SearchAfterExtractor is sensitive to."""
     r = _runner()
-    conc = jl.Concretiser(rnd, free_keys=FREE_KEYS, adversarial=adversarial, permute=permute, string_mode=string_mode)
+    conc = jl.Concretiser(rnd, free_keys=FREE_KEYS, adversarial=adversarial, permute=permute, string_mode=string_mode, requested=requested)
     datas = []
     for t in trees:
         node = conc.node(t)
@@ -269,7 +269,12 @@ def execute(inp, rnd, style=None, permute=None, adversarial=True, pad=False):
     if permute is None:
         permute = rnd.random() < 0.35
     trees = inp["pages"] if kind in ("scroll", "paged") else [inp["tree"]]
-    ren = render(trees, rnd, style, permute and kind not in ("sa", "paged"), adversarial, pad)
+    requested = []
+    if kind == "tree":
+        requested = _paths(inp["req"]["props"]) + _paths(inp["req"]["lists"]) + _paths(inp["req"]["objs"])
+    elif kind == "ca":
+        requested = ["aggregations." + ".".join(inp["path"]) + ".after_key"]
+    ren = render(trees, rnd, style, permute and kind not in ("sa", "paged"), adversarial, pad, requested=requested)
     table = ren.table
     item = {"kind": kind, "events": ren.events}
     lex = {"brackets": ren.brackets, "spc": ren.spc}
@@ -532,7 +537,7 @@ def sample_inputs(universe, caps, seed):
 
 
 # names of the members of a requested flat object (composite sources are usually named after the field they are built on)
-MEMBER_NAMES = ["geo.src", "geo.dest", "source.ip", "destination.ip", "host.name", "user.name", "a.b.c", "b.c", "c", "date", "a", "b", "@timestamp", "event.dataset"]
+MEMBER_NAMES = ["geo.src", "geo.dest", "source.ip", "destination.ip", "host.name", "user.name", "a.b.c", "b.c", "c", "date", "@timestamp", "event.dataset"]
 
 
 def _rand_scalar(rnd, ids):
